@@ -73,6 +73,18 @@ strengthened = {
  "C19-12": "missed at first: the expected results were computed from the shared tree before the goroutines started, which warmed any first-use cache; they now come from a second parse and the shared tree and map are fresh",
  "C20-12": "missed at first by C20 (caught by C15): canonical destinations were plain ASCII; destinations with characters to encode (also last) added",
  "C19-4": "missed at first: batches had no long destination that needs percent-encoding; rare-path constructs added to every batch",
+ "C20-16": "missed at first: the model kept destination parentheses balanced by construction; they are free now (unbalanced, or balanced in number only) and the serializer escapes them or uses angle brackets where a bare spelling would not be a balanced destination",
+ "C07-15": "missed at first by C07 (caught by C10): C07 rendered block by block through AppendBlock; it now also renders the whole document through Render, twice per renderer value, against the same grammar and the census of all blocks",
+ "C10-16": "missed at first: every configuration got a fresh renderer; every other case now keeps one HTMLRenderer value and sets its fields anew for each of the 24-30 configurations",
+ "C17-16": "missed at first: no tag name longer than about ten bytes; enumerated check name_lengths (every name length 1..70 and around 128, 256, 512, 1024, 4096; thorough every length to 1100; four spellings x four contexts, with the predicate that rejects exactly that name) and tags with names of 1-80 bytes in the HTML soup",
+ "C19-15": "missed at first: every concurrent Render wrote to a healthy buffer; one call in five now writes to a writer that fails and one in five to a writer that yields inside Write",
+ "C19-16": "missed at first (also by C18, whose walks are sequential): no walk was cut short in C19; walks aborted by Post / pruned by Pre now run before the concurrent phase and inside it, next to the renders, formats and full walks",
+ "C06-15": "missed at first by C06 (caught by C10): tight sequences had at most three blocks and never began with a quote; up to four blocks now, and a quote may be the first block of a tight item",
+ "C06-16": "C06's model never writes fused delimiter runs (conservative by design); C11 owns it and catches it",
+ "C11-16": "missed at first by C11 (caught by C15's sweep of all code points): the alphabets held ten non-ASCII characters; enumerated check code_points puts every non-ASCII code point (quick: the BMP and every 17th above; thorough: all) before and after delimiter runs in six templates that tell white space, punctuation and other characters apart",
+ "C04-15": "missed at first: no construct interior longer than 3000 bytes except in repeated-fragment mode; enumerated check long_interiors (20 non-nesting units x 14 templates x lengths 2048-20000, thorough 1500-100000 around every power of two)",
+ "C04-16": "missed at first: no e-mail autolink cut off after '@' at the very end of a span; enumerated corpus gen.TruncDocs (60 complete constructs cut after every byte, as the last bytes of a document, a heading, a quote, a list item and an enclosing inline) joined to gen.EdgeDocs, and the whole corpus now also runs in C04 (check edge_documents)",
+ "C12-15": "missed at first by C12 (caught by C09's long-label checks): C12 had no label near the limit; check long_labels (985-1003 characters of one to four bytes each, on 1-40 lines, in four containers, four use forms), which also exposed that the library counted bytes (repaired, section 12)",
 }
 rows = []
 for d in sorted(glob.glob("/verif/seeded/*/meta.json"), key=lambda p: (p.split("/")[3].split("-")[0], int(p.split("/")[3].split("-")[1]))):
